@@ -76,10 +76,10 @@ CHECKS["C09"] = dict(
     text="Coq theorems: (A) the TimedStore algorithm as an abstract machine keeps 'live expiry timers <-> stored entries with a timer, one to one' for EVERY sequence of refresh/stop/remove-where/firing (no stale timer, infinite TTL owns none, removed entry has none); (B) the history specification expires exactly once exactly at t0+ttl, never earlier, is postponed/cancelled by a refresh, silent after removal. (C) refinement of the loop model not proved; checked on every run (both stores, deadlines +-1 tick, same-iteration coincidences both orders).",
     design="6 (C09)", technique="Coq proof by invariant over all operation sequences (abstract TimedStore machine) + specification theorems + exact trace correspondence + extracted checker", note=STACK_NOTE)
 CHECKS["C15"] = dict(
-    text="Coq theorems for EVERY sequence of queue requests and collector firings (abstract machine mirroring queue_send/collector_timeout): per destination transmitted ++ pending = queued (no loss, duplication, reordering, mixing); case-by-case theorems of the model functions (zero timeout immediate, append, new collector with one timer at now+timeout, timeout sends exactly the collected entries). Deadline clause through the loop checked on every run (check_C15).",
+    text="Coq theorems over WHOLE RUNS of the full stack model, every scenario and schedule (ghost history, invariant kept by every callback / loop step / run): per destination handed over ++ pending = queued; a collector timeout runs at most once; every pending timeout within [now, now+timeout]; a completed run leaves no overdue collector. Also for EVERY sequence of queue requests and collector firings (abstract machine mirroring queue_send/collector_timeout): per destination transmitted ++ pending = queued (no loss, duplication, reordering, mixing); case-by-case theorems of the model functions (zero timeout immediate, append, new collector with one timer at now+timeout, timeout sends exactly the collected entries). Deadline clause through the loop checked on every run (check_C15).",
     design="6 (C15)", technique="Coq proof by invariant over all operation sequences (collector machine) + function-level theorems + exact trace correspondence + extracted checker", note=STACK_NOTE)
 CHECKS["C08"] = dict(
-    text="Coq theorems: for every interleaving of destinations the k-th id for a destination is ((k-1) mod 65535)+1 with the reboot flag iff k <= 65535 (alist invariant, lia over mod); never 0, no gap, no repeat; send_sd with no entries changes nothing, otherwise takes exactly one id which is the SOME/IP session id / SD reboot flag of the datagram. Correspondence walks a destination across the wrap through real send_sd (every datagram decoded) and _notify_single.",
+    text="Coq theorems: over whole runs of the full stack model (every scenario and schedule) the (flag, id) pairs given to the SD transmissions are the specification's (ghost history written by send_sd); for every interleaving of destinations the k-th id for a destination is ((k-1) mod 65535)+1 with the reboot flag iff k <= 65535 (alist invariant, lia over mod); never 0, no gap, no repeat; send_sd with no entries changes nothing, otherwise takes exactly one id which is the SOME/IP session id / SD reboot flag of the datagram. Correspondence walks a destination across the wrap through real send_sd (every datagram decoded) and _notify_single.",
     design="6 (C08)", technique="Coq proof by induction over the send history with an alist invariant + differential correspondence across the wrap-around", note=STACK_NOTE)
 CHECKS["C10"] = dict(
     text="Coq theorems on the offer task state machine of the model for every world (initial delay inside the window, first offer then readiness, repetition delays base*2^i, cyclic period or end, offer content, cancelled before first offer sends nothing, cancelled later exactly one StopOffer if cyclic, pending find answers dropped once stopped, announcer.stop idempotent). Composed schedule and global silence over all schedules not proved; judged on every run by check_C10 on implementation traces + exact trace correspondence. Known finding F11.",
